@@ -91,7 +91,10 @@ def driver(d, mf_scns, maxn):
             L.append('    { // tick %d' % ti)
             L.append('      std::vector<MF::StampedReading> rs;')
             for r in tk["rs"]:
-                L.append('      rs.push_back(MF::wrap(%s, rd%d));' % (lit(r["t"] * UNIT), r["id"]))
+                # the caller fills ONE scratch reading object, wraps it, and reuses the object for the next reading:
+                # wrap() must have taken a copy
+                T = keys[int(r["key"][1:]) - 1].title()
+                L.append('      { %s scratch = rd%d; rs.push_back(MF::wrap(%s, scratch)); scratch.data = scratch.data * 0.0 + scratch.data * 0.0; }' % (T, r["id"], lit(r["t"] * UNIT)))
             args = [lit(tk["out"] * UNIT)]
             if has_ctl:
                 args.append("ctl%d" % ti)
